@@ -17,7 +17,7 @@ func init() { Registry["C09"] = C09 }
 var hostileTexts = [][]byte{
 	{}, []byte("a"), []byte("\n"), []byte("\r\n"), []byte("ab"), []byte("a\r\nb"), []byte("\xc3\xa9"), []byte("\xff"),
 	[]byte("0"), []byte("12"), []byte("a1 b22\n"), []byte("aaaa"), []byte(" "), []byte("_a_"), []byte("Hello, Lilith"),
-	[]byte("x13 x12"), []byte("aabbd"), []byte("a\x00b"), []byte("\x00"), []byte("(a(b))"), []byte("'q'"), []byte("a,b,c\n1,2,3"),
+	[]byte("x13 x12"), []byte("aabbd"), []byte("xa"), []byte("xab"), []byte("ba"), []byte("a\x00b"), []byte("\x00"), []byte("(a(b))"), []byte("'q'"), []byte("a,b,c\n1,2,3"),
 }
 
 // c09ProcProgram: a terminating transform or predicate applied to arbitrary match text.
@@ -95,6 +95,16 @@ func C09(r *drv.Run) {
 		}
 	}
 	r.Count("mutant_sources", len(mutants))
+	// legal but odd: the empty string in every place a string may stand (literal, caseless, not, list item,
+	// either bound of a range, capture body, loop body, alternative, `with` item), reached at every position
+	// including the end of the input because a consuming element precedes it
+	empties := []string{"''", "\"\"", "caseless ''", "not ''", "in ''", "in '', 'a'", "in '' to 'b'", "in 'a' to ''", "in '' to ''", "not in ''", "not in '' to 'b'",
+		"('' = e) e", "(maybe '') = e e", "at least 0 ''", "at least 1 '' fewest", "exactly 2 ''", "'' or 'a'", "'a' or ''", "{''} = s s", "maybe (in '' to 'b')"}
+	for _, e := range empties {
+		mutants = append(mutants,
+			"find all "+e, "find all 'a' "+e, "find all "+e+" 'a'", "find all 'a' ("+e+") 'b'", "find all at least 0 ("+e+")", "find all maybe ("+e+") 'a'",
+			"find all any "+e+" file end", "replace all 'a' "+e+" with '' value ''", "find skip 1 'a' "+e)
+	}
 	// two fixed programs re-observe the recorded findings K1 and K3 on every run
 	mutants = append(mutants,
 		"set f to transform return 10 / match end\nreplace all digit with f",
